@@ -26,27 +26,21 @@ def make_topo(rng, case):
     return None
 
 
-def build_static(case):
-    """returns StaticCase or None (rejected)"""
-    rng = np.random.default_rng(case["seed"])
-    topo = make_topo(rng, case)
-    if topo is None:
-        return None
-    sub = None
+def choose_subset(topo, rng, case):
+    if case.get("flower"):
+        # one cell whose neighbours are all present, together with those neighbours: as many equations as unknowns
+        adj = topo.adjacency()
+        inner = [c for c in range(topo.ncells()) if all(len(topo.ridges[frozenset(r)]) == 2 for r in zip(topo.cells[c], topo.cells[c][1:] + topo.cells[c][:1]))]
+        if not inner:
+            return None
+        c = inner[int(rng.integers(len(inner)))]
+        return [c] + sorted(adj[c])
     if case.get("subset"):
-        sub = gen.connected_subsets(topo, rng, max(3, int(round(topo.ncells() * case["subset"]))))
-    mob = gen.Mobius.random(rng, topo, strength=case.get("strength", 1.0)) if case.get("mobius") else None
-    angle = case.get("angle", 0.0)
-    sim = gen.Similarity(angle=angle, scale=case.get("scale", 1.0), shift=complex(*case.get("shift", (0.0, 0.0))),
-                         reflect=case.get("reflect", False))
-    kmin, kmax = case.get("kmin", 1), case.get("kmax", 15)
-    ks = {}
-    def k_of(r):
-        if r not in ks:
-            ks[r] = int(rng.integers(kmin, kmax + 1))
-        return ks[r]
-    # storage choices (orientation, cycle start, ids, insertion order) come from their own stream so that variants of one
-    # physical tissue share the geometry stream
+        return gen.connected_subsets(topo, rng, max(3, int(round(topo.ncells() * case["subset"]))))
+    return None
+
+
+def storage_choices(case, topo, sub):
     rv = np.random.default_rng([case["seed"], 777, int(case.get("variant", 0))])
     rev = [c for c in range(topo.ncells()) if rv.random() < case.get("p_rev", 0.0)]
     shifts = {c: int(rv.integers(0, 40)) for c in range(topo.ncells())} if case.get("shifts") else None
@@ -56,9 +50,34 @@ def build_static(case):
         cell_order = list(sub if sub is not None else range(topo.ncells()))
         rv.shuffle(cell_order)
     ea, eb = (int(rv.integers(2, 5)), int(rv.integers(0, 30))) if case.get("relabel") else (1, 0)
+    return dict(reverse_cells=rev, shifts=shifts, vmap=(lambda i: a * i + b), cmap=(lambda i: 2 * i + 1) if case.get("relabel") else None,
+                emap=(lambda i: ea * i + eb), cell_order=cell_order)
+
+
+def build_static(case):
+    """returns StaticCase or None (rejected)"""
+    rng = np.random.default_rng(case["seed"])
+    topo = make_topo(rng, case)
+    if topo is None:
+        return None
+    sub = choose_subset(topo, rng, case)
+    if sub is None and case.get("flower"):
+        return None
+    mob = gen.Mobius.random(rng, topo, strength=case.get("strength", 1.0)) if case.get("mobius") else None
+    angle = case.get("angle", 0.0)
+    sim = gen.Similarity(angle=angle, scale=case.get("scale", 1.0), shift=complex(*case.get("shift", (0.0, 0.0))),
+                         reflect=case.get("reflect", False), stretch=case.get("stretch", 1.0))
+    kmin, kmax = case.get("kmin", 1), case.get("kmax", 15)
+    ks = {}
+    def k_of(r):
+        if r not in ks:
+            ks[r] = int(rng.integers(kmin, kmax + 1))
+        return ks[r]
+    # storage choices (orientation, cycle start, ids, insertion order) come from their own stream so that variants of one
+    # physical tissue share the geometry stream
+    st = storage_choices(case, topo, sub)
     bm = gen.build_mesh(topo, sub, rng=rng, param_mode=case.get("param_mode", "uniform"), k_of_ridge=k_of, mobius=mob, sim=sim,
-                        reverse_cells=rev, shifts=shifts, vmap=(lambda i: a * i + b), cmap=(lambda i: 2 * i + 1) if case.get("relabel") else None,
-                        emap=(lambda i: ea * i + eb), cell_order=cell_order, center_method="mean")
+                        center_method="mean", **st)
     sc = StaticCase()
     sc.case, sc.topo, sc.sub, sc.mob, sc.sim, sc.bm, sc.rng = case, topo, sub, mob, sim, bm, rng
     return sc
@@ -85,7 +104,9 @@ def solve_setup(sc, fit="dlite", ignore_four=False, angle_limit=None):
     kw = {}
     if angle_limit is not None:
         kw["angle_limit"] = angle_limit
-    impl.quiet(f.build_force_matrix, when=0, metadata={"ignore_four": ignore_four}, circle_fit_method=fit, **kw)
+    if ignore_four is not None:
+        kw["metadata"] = {"ignore_four": ignore_four}
+    impl.quiet(f.build_force_matrix, when=0, circle_fit_method=fit, **kw)
     sc.frame, sc.forsys, sc.fm = frame, f, f.force_matrices[0]
     return sc
 
@@ -133,12 +154,10 @@ def build_series(case, nframes=2, times=None, disp=None, renumber=False):
         sc = StaticCase()
         rng = np.random.default_rng(case["seed"])     # same draws → same k per ridge, same params
         topo = make_topo(rng, case)
-        sub = None
-        if case.get("subset"):
-            sub = gen.connected_subsets(topo, rng, max(3, int(round(topo.ncells() * case["subset"]))))
+        sub = choose_subset(topo, rng, case)
         mob = gen.Mobius.random(rng, topo, strength=case.get("strength", 1.0)) if case.get("mobius") else None
         sim = gen.Similarity(angle=case.get("angle", 0.0), scale=case.get("scale", 1.0), shift=complex(*case.get("shift", (0.0, 0.0))),
-                             reflect=case.get("reflect", False))
+                             reflect=case.get("reflect", False), stretch=case.get("stretch", 1.0))
         kmin, kmax = case.get("kmin", 1), case.get("kmax", 15)
         ks = {}
         def k_of(r, ks=ks, rng=rng):
@@ -153,7 +172,11 @@ def build_series(case, nframes=2, times=None, disp=None, renumber=False):
             vmap = (lambda i, perm=perm: int(perm[i % 4000]) + 4000 * (i // 4000))
         else:
             vmap = None
-        bm = gen.build_mesh(topo, sub, rng=rng, param_mode="uniform", k_of_ridge=k_of, mobius=mob, sim=sim, vmap=vmap, center_method="mean")
+        st = {}
+        if case.get("storage_in_series"):
+            st = storage_choices(case, topo, sub)
+            st.pop("vmap")
+        bm = gen.build_mesh(topo, sub, rng=rng, param_mode="uniform", k_of_ridge=k_of, mobius=mob, sim=sim, vmap=vmap, center_method="mean", **st)
         sc.case, sc.topo, sc.sub, sc.mob, sc.sim, sc.bm, sc.rng = c, topo, sub, mob, sim, bm, rng
         out.append(sc)
     return out
